@@ -296,6 +296,27 @@ impl Ctx {
             println!("note: {}", n);
         }
 
+        // Replay mode: report whether the recorded signature recurs, never touch evidence.
+        if let Some(rp) = &self.replay {
+            let want = rp.get("signature").and_then(|s| s.as_str()).unwrap_or("").to_string();
+            println!("replay: looking for signature {:?}", want);
+            if let Some(v) = self.obs.violations.iter().find(|v| v.signature == want) {
+                println!("replay: REPRODUCED ({} occurrences)", self.obs.violation_sigs.get(&want).copied().unwrap_or(1));
+                println!("replay: detail (expected vs observed): {}", v.detail);
+                println!("VIOLATION property={} replay={}", self.prop, rp.get("_path").and_then(|p| p.as_str()).unwrap_or("<replay file>"));
+                return 1;
+            }
+            if self.obs.violation_sigs.contains_key(&want) {
+                println!("replay: REPRODUCED (signature recurs; witness not kept)");
+                return 1;
+            }
+            println!("replay: not reproduced on the current tree ({} other violation signatures seen)", self.obs.violation_sigs.len());
+            for s in self.obs.violation_sigs.keys().take(5) {
+                println!("replay: other signature: {}", s);
+            }
+            return 0;
+        }
+
         // Replay files for fresh violations.
         let replay_dir = std::env::var("VERIF_REPLAY_DIR").map(PathBuf::from).unwrap_or_else(|_| root.join("replays"));
         let _ = std::fs::create_dir_all(&replay_dir);
